@@ -412,6 +412,25 @@ Proof.
     split; [exact HS1|]. eauto.
 Qed.
 
+(* a recv(pop) that hands out a byte and leaves nothing unread has posted the receive buffer again -
+   whatever the suppression words say, wherever the indices stand *)
+Lemma recv_reposts m c d infl addr ae uf b c' evs :
+  Jrx c d infl -> recv m c true (dev_view d) addr ae uf = (Ok (Some b), c', evs) ->
+  c_cursor c' = c_pending c' -> c_token c' <> None.
+Proof.
+  intros HJ E Hdr. unfold recv in E.
+  destruct (finish_J c d infl [] (unread c ++ infl) HJ eq_refl) as (fb & c1 & e1 & Ef & HJ1 & _ & _ & _ & _ & _).
+  rewrite Ef in E. cbn [bind] in E.
+  destruct (Jrx_bounds _ _ _ HJ1) as (Hcp & Hp & Hlen).
+  destruct (N.eqb_spec (c_cursor c1) (c_pending c1)) as [Ecur|Ecur]; [discriminate E|].
+  unfold buf_at in E. destruct (N.leb_spec PAGE (c_cursor c1)) as [Hx|_]; [lia|].
+  rewrite (uadd_small m (c_cursor c1) 1) in E by (unfold two64, PAGE in *; lia).
+  assert (Etok : c_token c1 = None) by (eapply Jrx_unread_some; eauto).
+  assert (HJ2 : Jrx (set_cursor c1 (c_cursor c1 + 1)) d []) by (apply Jrx_set_cursor; auto; lia).
+  destruct (poll_spec _ d [] addr ae uf HJ2) as (c3 & e3 & Ep & _ & _ & _ & _ & _ & _ & _ & Hpost & _).
+  rewrite Ep in E. cbn [bind] in E. inversion E; subst c'. exact (Hpost Hdr).
+Qed.
+
 Lemma read_ready_spec c d infl D W : Jrx c d infl -> D ++ unread c ++ infl = W ->
   exists b c' evs, read_ready c (dev_view d) = (Ok b, c', evs)
     /\ Jrx c' d [] /\ infl_after c c' infl = [] /\ D ++ unread c' = W
@@ -975,6 +994,32 @@ Proof.
   unfold unread. cbn [c0 c_buf]. now rewrite skipn_nil.
 Qed.
 
+(* the same with every free-running index (both queues, the device's copies) standing at any 16-bit value *)
+Lemma reach_new_at ind ev v : v < two16 -> Reach (qset_indices (qnew 2 ind ev) v) [] [].
+Proof.
+  intros Hv. change (qnew 2 ind ev) with (qnew (2 ^ 1) ind ev). apply R_new; [lia|exact Hv].
+Qed.
+
+Lemma init_J_at start df addr ae uf : start < two16 -> J (sys_init_at start df addr ae uf).
+Proof.
+  intros Hst. unfold sys_init_at, console_new_at.
+  set (f := N.land df SUPPORTED_FEATURES).
+  set (c0 := mkC f (qset_indices (qnew QSIZE (has_flag f FEAT_INDIRECT) (has_flag f FEAT_EVENT_IDX)) start)
+                 (qset_indices (qnew QSIZE (has_flag f FEAT_INDIRECT) (has_flag f FEAT_EVENT_IDX)) start) [] 0 0 None).
+  assert (HJ0 : Jrx c0 (dev_init_at start) []).
+  { exists [], []. cbn [c0 c_rxq c_cursor c_pending c_buf c_token].
+    split; [apply reach_new_at; exact Hst|]. split; [reflexivity|]. split; [lia|]. split; [unfold PAGE; lia|].
+    split; [reflexivity|]. split; [exact Hst|]. split; [reflexivity|]. split; [reflexivity|].
+    repeat split; reflexivity. }
+  destruct (poll_spec c0 (dev_init_at start) [] addr ae uf HJ0) as (c' & evs & E & HJ' & Hb & Hc & _).
+  rewrite E. split; cbn [s_c s_d s_infl s_written s_delivered]; [exact HJ'|].
+  unfold St. cbn [s_c s_d s_infl s_written s_delivered]. rewrite (unread_ext c0 c' Hb Hc).
+  unfold unread. cbn [c0 c_buf]. now rewrite skipn_nil.
+Qed.
+
+Lemma sys_init_at_0 df addr ae uf : sys_init_at 0 df addr ae uf = sys_init df addr ae uf.
+Proof. reflexivity. Qed.
+
 Lemma run_J fixedc m s ops : J s -> Forall (op_ok fixedc m) ops -> J (sys_run fixedc m s ops).
 Proof.
   revert s. induction ops as [|o ops IH]; intros s HJ Hok; [exact HJ|].
@@ -1007,8 +1052,7 @@ Qed.
 
 (* at most one receive request is outstanding; while one is, nothing received is unread; without
    one nothing is in flight; the device sees avail - used in {0, 1} *)
-Theorem one_buffer m df addr ae uf ops :
-  let s := sys_run true m (sys_init df addr ae uf) ops in
+Lemma one_buffer_of_J s : J s ->
   let q := c_rxq (s_c s) in
   exists chains h,
     Reach q chains h /\ (length chains <= 1)%nat
@@ -1021,8 +1065,7 @@ Theorem one_buffer m df addr ae uf ops :
     /\ sub16 (q_aidx q) (q_last_used q) <= 1
     /\ sub16 (q_aidx q) (d_used (s_d s)) <= 1.
 Proof.
-  cbv zeta. destruct (console_invariant m df addr ae uf ops) as [HJ _].
-  set (s := sys_run true m (sys_init df addr ae uf) ops) in *.
+  cbv zeta. intros [HJ _].
   assert (HJ0 := HJ).
   destruct HJ as (chains & h & HR & Hsz & Hcp & Hp & Hlen & Hdu & Hds & Hring & Htok).
   destruct (reach_basic _ _ _ HR) as (Haidx & Hav & Hlu & Har).
@@ -1046,6 +1089,166 @@ Proof.
   - destruct Htok as (-> & Hi & Hai & Hl).
     split; [cbn; lia|]. split; [split; reflexivity|]. split; [discriminate|]. split; [auto|].
     rewrite Haidx, Hai, Hds, Hl. unfold sub16, w16, two16 in *. split; lia.
+Qed.
+
+Theorem one_buffer m df addr ae uf ops :
+  let s := sys_run true m (sys_init df addr ae uf) ops in
+  let q := c_rxq (s_c s) in
+  exists chains h,
+    Reach q chains h /\ (length chains <= 1)%nat
+    /\ (c_token (s_c s) = None <-> chains = [])
+    /\ (forall t, c_token (s_c s) = Some t ->
+          unread (s_c s) = []
+          /\ exists ch a, chains = [ch] /\ c_head ch = t /\ c_bufs ch = [(rxbuf a, true)]
+                          /\ walk (q_dtable q) (fun _ => None) t 2 = Some [(a, PAGE, true)])
+    /\ (c_token (s_c s) = None -> s_infl s = [])
+    /\ sub16 (q_aidx q) (q_last_used q) <= 1
+    /\ sub16 (q_aidx q) (d_used (s_d s)) <= 1.
+Proof. exact (one_buffer_of_J _ (console_invariant m df addr ae uf ops)). Qed.
+
+(* ------------------------------------------------------------------------------------------ *)
+(* the same statements wherever the 16-bit ring indices stand (in particular across the wrap)   *)
+(* and for every suppression word the device may have written (ae, uf are arguments of every    *)
+(* operation that can publish a buffer, universally quantified in `ops`)                        *)
+Theorem console_invariant_at m start df addr ae uf ops :
+  start < two16 -> J (sys_run true m (sys_init_at start df addr ae uf) ops).
+Proof. intros Hst. apply run_J; [apply init_J_at; exact Hst|apply all_ops_ok]. Qed.
+
+Theorem stream_exact_at m start df addr ae uf ops :
+  start < two16 ->
+  let s := sys_run true m (sys_init_at start df addr ae uf) ops in
+  s_delivered s ++ unread (s_c s) ++ s_infl s = s_written s.
+Proof. intros Hst. exact (proj2 (console_invariant_at m start df addr ae uf ops Hst)). Qed.
+
+Theorem calls_exact_at m start df addr ae uf ops o :
+  start < two16 ->
+  let s := sys_run true m (sys_init_at start df addr ae uf) ops in
+  call_post s o (fst (sys_step true m s o)) (snd (sys_step true m s o)).
+Proof.
+  intros Hst. cbv zeta. apply step_ok; [apply console_invariant_at; exact Hst|]. destruct o; cbn; auto.
+Qed.
+
+Theorem one_buffer_at m start df addr ae uf ops :
+  start < two16 ->
+  let s := sys_run true m (sys_init_at start df addr ae uf) ops in
+  let q := c_rxq (s_c s) in
+  exists chains h,
+    Reach q chains h /\ (length chains <= 1)%nat
+    /\ (c_token (s_c s) = None <-> chains = [])
+    /\ (forall t, c_token (s_c s) = Some t ->
+          unread (s_c s) = []
+          /\ exists ch a, chains = [ch] /\ c_head ch = t /\ c_bufs ch = [(rxbuf a, true)]
+                          /\ walk (q_dtable q) (fun _ => None) t 2 = Some [(a, PAGE, true)])
+    /\ (c_token (s_c s) = None -> s_infl s = [])
+    /\ sub16 (q_aidx q) (q_last_used q) <= 1
+    /\ sub16 (q_aidx q) (d_used (s_d s)) <= 1.
+Proof. intros Hst. exact (one_buffer_of_J _ (console_invariant_at m start df addr ae uf ops Hst)). Qed.
+
+(* The receive buffer comes back.  From ANY state satisfying the invariant (hence after every history,
+   from every start index, see repost_delivers_at): when a recv(pop) hands out a byte and leaves nothing
+   unread, then - whatever the suppression words e1 u1 are (notification asked for or not, EVENT_IDX or
+   not) - the driver has recorded an outstanding request, nothing is in flight, the device sees EXACTLY
+   one available buffer (avail index - used index = 1 in device-visible memory), the device can deliver
+   any legal chunk into it, and the first receive call after that delivery returns the first byte of
+   that chunk. *)
+Theorem repost_delivers m s a1 e1 u1 chunk pop a2 e2 u2 :
+  J s ->
+  let s1 := fst (sys_step true m s (ORecv true a1 e1 u1)) in
+  let r1 := snd (sys_step true m s (ORecv true a1 e1 u1)) in
+  r_val r1 <> 0 -> unread (s_c s1) = [] ->
+  c_token (s_c s1) <> None /\ s_infl s1 = []
+  /\ sub16 (q_aidx (c_rxq (s_c s1))) (d_used (s_d s1)) = 1
+  /\ (1 <= lenN chunk <= PAGE ->
+      dev_can_fill (c_rxq (s_c s1)) (s_d s1) chunk = true
+      /\ let s2 := fst (sys_step true m s1 (OFill chunk)) in
+         r_bytes (snd (sys_step true m s2 (ORecv pop a2 e2 u2))) = firstn 1 chunk).
+Proof.
+  intros HJs. cbv zeta. intros Hval Hdr.
+  destruct (step_ok true m s (ORecv true a1 e1 u1) HJs I) as [HJ1 _].
+  set (s1 := fst (sys_step true m s (ORecv true a1 e1 u1))) in *.
+  assert (Htok_infl : c_token (s_c s1) <> None /\ s_infl s1 = []).
+  { destruct HJs as [HJ HS]. unfold St in HS. subst s1. revert Hval Hdr. cbn [sys_step].
+    destruct (recv_spec m (s_c s) (s_d s) (s_infl s) (s_delivered s) (s_written s) true a1 e1 u1 HJ HS)
+      as (r & c' & evs & E & HJ' & Hia & _).
+    rewrite E. cbn [fst snd ret_of r_val s_c s_infl]. intros Hval Hdr.
+    split; [|exact Hia].
+    destruct r as [b|]; [|now elim Hval].
+    apply (recv_reposts m (s_c s) (s_d s) (s_infl s) a1 e1 u1 b c' evs HJ E).
+    pose proof (Jrx_unread_len _ _ _ HJ') as Hl. rewrite Hdr in Hl. cbn in Hl.
+    destruct (Jrx_bounds _ _ _ HJ') as (Hcp & _). lia. }
+  destruct Htok_infl as [Htok Hinfl].
+  split; [exact Htok|]. split; [exact Hinfl|].
+  destruct HJ1 as [HJ1 HS1]. unfold St in HS1.
+  split.
+  { destruct HJ1 as (chains & h & HR & Hsz & Hcp & Hp & Hlen & Hdu & Hds & Hring & Ht).
+    destruct (reach_basic _ _ _ HR) as (Haidx & Hav & Hlu & Har).
+    destruct (c_token (s_c s1)) as [t|]; [|now elim Htok].
+    destruct Ht as (_ & _ & ch & _ & _ & [(_ & Hai & _)|(Hbad & _)]).
+    - rewrite Haidx, Hai, Hds. unfold sub16, w16, two16 in *. lia.
+    - rewrite Hinfl in Hbad. cbn in Hbad. lia. }
+  intros Hlegal.
+  destruct (fill_spec (s_c s1) (s_d s1) (s_infl s1) chunk HJ1) as (_ & _ & Fcan).
+  pose proof (Fcan Htok Hinfl Hlegal) as Ecan. split; [exact Ecan|].
+  assert (HJ1' : J s1) by (split; assumption).
+  destruct (step_ok true m s1 (OFill chunk) HJ1' I) as [HJ2 Hp2].
+  cbn [call_post] in Hp2. destruct Hp2 as (Hd2 & [(_ & _ & Hw2)|(_ & Hsame)]).
+  2:{ exfalso. revert Hsame. cbn [sys_step]. rewrite Ecan. cbn [fst]. intros Hsame.
+      apply (f_equal s_written) in Hsame. cbn [s_written] in Hsame.
+      assert (Hc : chunk = []).
+      { apply (app_inv_head (s_written s1)). now rewrite app_nil_r. }
+      rewrite Hc in Hlegal. unfold lenN in Hlegal. cbn in Hlegal. lia. }
+  set (s2 := fst (sys_step true m s1 (OFill chunk))) in *.
+  destruct (step_ok true m s2 (ORecv pop a2 e2 u2) HJ2 I) as [_ Hp3].
+  cbn [call_post] in Hp3. destruct Hp3 as (_ & Hw3 & Hd3 & Hzero & Hnz & (rest & Hrest)).
+  rewrite Hdr, Hinfl in HS1. cbn [app] in HS1. rewrite app_nil_r in HS1.
+  rewrite Hw3, Hw2, Hd2, HS1 in Hrest. apply app_inv_head in Hrest.
+  remember (snd (sys_step true m s2 (ORecv pop a2 e2 u2))) as r3 eqn:Er3. clear Er3.
+  destruct (N.eq_dec (r_val r3) 0) as [Ez|Enz].
+  - exfalso. destruct (Hzero Ez) as (Hb & Hall). rewrite Hb in Hd3.
+    rewrite Hd3, Hw3, Hw2, Hd2, HS1 in Hall.
+    assert (Hc : chunk = []).
+    { apply (app_inv_head (s_written s1)). rewrite app_nil_r. destruct pop; rewrite ?app_nil_r in Hall; now symmetry. }
+    rewrite Hc in Hlegal. unfold lenN in Hlegal. cbn in Hlegal. lia.
+  - destruct (Hnz Enz) as (b & Hb). rewrite Hb in *. rewrite Hrest. reflexivity.
+Qed.
+
+(* ... and this holds at every point of every history from every start index *)
+Theorem repost_delivers_at m start df addr ae uf ops a1 e1 u1 chunk pop a2 e2 u2 :
+  start < two16 ->
+  let s := sys_run true m (sys_init_at start df addr ae uf) ops in
+  let s1 := fst (sys_step true m s (ORecv true a1 e1 u1)) in
+  let r1 := snd (sys_step true m s (ORecv true a1 e1 u1)) in
+  r_val r1 <> 0 -> unread (s_c s1) = [] ->
+  c_token (s_c s1) <> None /\ s_infl s1 = []
+  /\ sub16 (q_aidx (c_rxq (s_c s1))) (d_used (s_d s1)) = 1
+  /\ (1 <= lenN chunk <= PAGE ->
+      dev_can_fill (c_rxq (s_c s1)) (s_d s1) chunk = true
+      /\ let s2 := fst (sys_step true m s1 (OFill chunk)) in
+         r_bytes (snd (sys_step true m s2 (ORecv pop a2 e2 u2))) = firstn 1 chunk).
+Proof.
+  intros Hst. exact (repost_delivers m _ a1 e1 u1 chunk pop a2 e2 u2 (console_invariant_at m start df addr ae uf ops Hst)).
+Qed.
+
+(* the transmit queue of the any-index system is an idle reachable queue of size 2: send_publishes
+   below applies to it (and to the queue it leaves behind, so to every honest history of sends) *)
+Lemma tx_idle_at start df addr ae uf :
+  start < two16 ->
+  let c := s_c (sys_init_at start df addr ae uf) in
+  Reach (c_txq c) [] [] /\ q_size (c_txq c) = 2
+  /\ q_avail_idx (c_txq c) = start /\ q_last_used (c_txq c) = start.
+Proof.
+  intros Hst. cbv zeta. unfold sys_init_at, console_new_at.
+  set (f := N.land df SUPPORTED_FEATURES).
+  set (c0 := mkC f (qset_indices (qnew QSIZE (has_flag f FEAT_INDIRECT) (has_flag f FEAT_EVENT_IDX)) start)
+                 (qset_indices (qnew QSIZE (has_flag f FEAT_INDIRECT) (has_flag f FEAT_EVENT_IDX)) start) [] 0 0 None).
+  assert (HJ0 : Jrx c0 (dev_init_at start) []).
+  { exists [], []. cbn [c0 c_rxq c_cursor c_pending c_buf c_token].
+    split; [apply reach_new_at; exact Hst|]. split; [reflexivity|]. split; [lia|]. split; [unfold PAGE; lia|].
+    split; [reflexivity|]. split; [exact Hst|]. split; [reflexivity|]. split; [reflexivity|].
+    repeat split; reflexivity. }
+  destruct (poll_spec c0 (dev_init_at start) [] addr ae uf HJ0) as (c' & evs & E & _ & _ & _ & _ & _ & Htx & _).
+  rewrite E. cbn [s_c]. rewrite Htx. cbn [c0 c_txq].
+  split; [apply reach_new_at; exact Hst|]. repeat split; reflexivity.
 Qed.
 
 (* ------------------------------------------------------------------------------------------ *)
@@ -1256,4 +1459,78 @@ Example prefix_partial_nonvacuous :
 Proof.
   apply Forall_cons; [exact I|]. apply Forall_cons; [exact I|].
   apply Forall_cons; [right; right; reflexivity|]. apply Forall_cons; [right; right; reflexivity|]. constructor.
+Qed.
+
+(* ------------------------------------------------------------------------------------------ *)
+(* non-vacuity of the any-index statements: a history that takes avail, used and last_used of  *)
+(* the receive queue across 65535 -> 0 (EVENT_IDX negotiated, the device asking / not asking)   *)
+Example wrap_nonvacuous :
+  let s := sys_run true Debug (sys_init_at 65535 536870912 1000 65535 1)
+             [OFill [1]; ORecv true 2000 40000 1; OFill [5; 6]; ORecv false 0 0 0; ORecv true 0 0 0;
+              ORecv true 3000 0 1; OFill [9]] in
+  65535 < two16
+  /\ s_written s = [1; 5; 6; 9] /\ s_delivered s = [1; 5; 6] /\ s_infl s = [9]
+  /\ q_avail_idx (c_rxq (s_c s)) = 2 /\ d_used (s_d s) = 2 /\ q_last_used (c_rxq (s_c s)) = 1
+  /\ c_token (s_c s) = Some 0.
+Proof. vm_compute. repeat split; reflexivity. Qed.
+
+Definition has_notify (evs : list cev) : bool :=
+  existsb (fun e => match e with CNotify _ => true | _ => false end) evs.
+
+(* the hypotheses of repost_delivers are satisfiable with the notification suppressed: the recv(pop)
+   that takes the last byte re-posts the buffer WITHOUT notifying (EVENT_IDX with avail_event far
+   ahead; no EVENT_IDX with used.flags = 1) and still records the request; with avail_event at the
+   index being published it notifies *)
+Example repost_nonvacuous :
+  let s := sys_run true Release (sys_init_at 65535 536870912 1000 0 0) [OFill [7]] in
+  let st := sys_step true Release s (ORecv true 2000 16384 1) in
+  let s' := sys_run true Release (sys_init_at 65535 0 1000 0 0) [OFill [7]] in
+  let st' := sys_step true Release s' (ORecv true 2000 0 1) in
+  r_val (snd st) <> 0 /\ unread (s_c (fst st)) = [] /\ c_token (s_c (fst st)) = Some 0
+  /\ has_notify (snd (recv Release (s_c s) true (dev_view (s_d s)) 2000 16384 1)) = false
+  /\ has_notify (snd (recv Release (s_c s) true (dev_view (s_d s)) 2000 0 1)) = true
+  /\ r_val (snd st') <> 0 /\ unread (s_c (fst st')) = [] /\ c_token (s_c (fst st')) = Some 0
+  /\ has_notify (snd (recv Release (s_c s') true (dev_view (s_d s')) 2000 0 1)) = false
+  /\ has_notify (snd (recv Release (s_c s') true (dev_view (s_d s')) 2000 0 0)) = true.
+Proof. vm_compute. repeat split; try reflexivity; discriminate. Qed.
+
+(* ------------------------------------------------------------------------------------------ *)
+(* the suppression words decide the notification and nothing else                              *)
+Lemma has_notify_cq q evs : has_notify (map (CQ q) evs) = false.
+Proof. induction evs as [|e evs IH]; [reflexivity|exact IH]. Qed.
+
+Lemma has_notify_app a b : has_notify (a ++ b) = has_notify a || has_notify b.
+Proof. unfold has_notify. apply existsb_app. Qed.
+
+(* poll_retrieve (the only place where the driver publishes a receive buffer: from new, recv(pop), read,
+   fill_buf): for ANY two pairs of suppression words, in ANY driver state, the result and the new driver
+   state (the recorded token included) are the same and the effects differ at most in the notification;
+   and the notification is sent exactly when the queue's should_notify says so for the words given. *)
+Theorem poll_words c addr ae uf ae' uf' :
+  fst (poll_retrieve c addr ae uf) = fst (poll_retrieve c addr ae' uf')
+  /\ filter (fun e => negb (has_notify [e])) (snd (poll_retrieve c addr ae uf))
+     = filter (fun e => negb (has_notify [e])) (snd (poll_retrieve c addr ae' uf'))
+  /\ (forall tok, fst (fst (add (c_rxq c) [] [rxbuf addr] 0)) = Ok tok ->
+      c_token c = None -> c_cursor c = c_pending c ->
+      c_token (snd (fst (poll_retrieve c addr ae uf))) = Some tok
+      /\ has_notify (snd (poll_retrieve c addr ae uf))
+         = should_notify (snd (fst (add (c_rxq c) [] [rxbuf addr] 0))) ae uf).
+Proof.
+  unfold poll_retrieve.
+  destruct (c_token c) as [t|]; [split; [reflexivity|]; split; [reflexivity|]; intros tok _ Hx; discriminate Hx|].
+  destruct (c_cursor c =? c_pending c) eqn:Ecur.
+  2:{ split; [reflexivity|]. split; [reflexivity|]. intros tok _ _ Hx. apply N.eqb_neq in Ecur. now elim Ecur. }
+  destruct (add (c_rxq c) [] [rxbuf addr] 0) as [[o q] evs]. cbn [fst snd].
+  destruct o as [tok|e| |]; cbn [fst snd].
+  - split; [reflexivity|]. split.
+    + rewrite !filter_app.
+      assert (Hn : forall b : bool, filter (fun e => negb (has_notify [e])) (if b then [CNotify RXQ] else []) = []).
+      { intros [|]; reflexivity. }
+      now rewrite !Hn.
+    + intros tok' Ht _ _. inversion Ht; subst tok'. cbn [set_rx c_token]. split; [reflexivity|].
+      rewrite has_notify_app, has_notify_cq. cbn [orb].
+      destruct (should_notify q ae uf); reflexivity.
+  - split; [reflexivity|]. split; [reflexivity|]. intros tok Hx. discriminate Hx.
+  - split; [reflexivity|]. split; [reflexivity|]. intros tok Hx. discriminate Hx.
+  - split; [reflexivity|]. split; [reflexivity|]. intros tok Hx. discriminate Hx.
 Qed.
